@@ -232,13 +232,13 @@ def t2(workdir):
         objs.append(obj)
         if not os.path.exists(obj):
             procs.append((obj, subprocess.Popen(["g++", "-std=gnu++14", "-msse4", "-O0", "-g", "-I", os.path.join(REPO, "src"),
-                                                 "-c", sfile, "-o", obj + ".tmp"], stdout=subprocess.PIPE, stderr=subprocess.PIPE, text=True)))
+                                                 "-c", sfile, "-o", obj + ".tmp%d" % os.getpid()], stdout=subprocess.PIPE, stderr=subprocess.PIPE, text=True)))
     for obj, pr in procs:
         out, err = pr.communicate()
         if pr.returncode != 0:
             sys.stderr.write("T2: a library source does not compile\n" + err[-2000:])
             return None
-        os.replace(obj + ".tmp", obj)
+        os.replace(obj + ".tmp%d" % os.getpid(), obj)       # (several checks may run the translator at the same time)
     # prune old objects
     keep = set(objs)
     for f in os.listdir(objdir):
